@@ -24,6 +24,7 @@ REQUIRED_THEOREMS = ['CfVerif.C07.' + t for t in (
     'dispatch_calls', 'dispatch_exactly_once', 'not_registered_not_called', 'raise_isolated', 'later_packets_processed',
     'remove_only_that_registration', 'dispatch_after_remove', 'packets_in_order', 'packets_in_order_static',
     'caller_add_no_duplicates', 'caller_remove_only_that', 'caller_call_snapshot',
+    'gen_every_packet_dispatched', 'no_packet_skipped', 'receive_is_dispatch', 'all_packet_callbacks_get_every_packet',
     'live_dispatch_counterexample', 'live_remove_counterexample')]
 TRUSTED = ['harness/corr/c07.py extractor + correspondence + spec twin',
            'Python list semantics as modelled: list(l) is an atomic copy, append/remove(x) act on the first ==-equal element, a list '
@@ -40,7 +41,9 @@ RULE = ('cases = one dispatcher per case: registrations (<= 8 initial, header/po
         'included), per-invocation callback scripts (add / remove self, earlier, later, absent / raise / Caller add, remove) for port and '
         'all-packet callbacks, 1-3 packet batches with operations from outside between batches, run synchronously or through the real '
         'thread; systematic families: every subset of raising callbacks (n <= 5), every (callback i removes registration j) for n <= 4, '
-        'registrations added during dispatch, all 256 headers against assorted masks, Caller corner cases.  distinct = distinct request '
+        'registrations added during dispatch, all 256 headers against assorted masks (once more as header-only packets), every header '
+        'byte with 0 / 1 / 30 payload bytes against observers of everything, Caller corner cases; every packet carries a payload length '
+        'drawn from {0,0,0,1,1,2,7,29,30,30}.  distinct = distinct request '
         'lines; non-trivial = at least one port callback was invoked')
 
 CF = 'cflib/crazyflie/__init__.py'
@@ -213,6 +216,34 @@ def extract(ctx):
             and ast.unparse(n.value.func).endswith('.receive_packet')]
     X.expect(len(recv) == 1 and isinstance(recv[0].targets[0], ast.Name), 'run: `pk = ...receive_packet(...)` not found')
     pkv = recv[0].targets[0].id
+    # the "no packet" test between receive_packet and the callbacks: which packets does it skip?
+    i_recv = wl.body.index(recv[0])
+    skips = [n for n in wl.body[i_recv + 1:] if isinstance(n, ast.If) and not n.orelse and len(n.body) == 1
+             and isinstance(n.body[0], ast.Continue) and pkv in {m.id for m in ast.walk(n.test) if isinstance(m, ast.Name)}]
+    X.expect(len(skips) == 1, 'run: expected exactly one `if <test on %s>: continue` after receive_packet' % pkv)
+    t = ast.unparse(skips[0].test)
+    if t in ('%s is None' % pkv, '%s == None' % pkv, 'None is %s' % pkv):
+        skip_none = True
+    elif t in ('not %s' % pkv, 'not bool(%s)' % pkv):
+        skip_none = False           # skips every falsy object: depends on CRTPPacket.__bool__/__len__
+    else:
+        raise ExtractError('run: unknown no-packet test %r' % t)
+    g.string('recvSkipTest', t.replace(pkv, 'pk'))
+    g.raw('def recvSkipIsNone : Bool := ' + _lbool(skip_none))
+    # truthiness of a CRTPPacket object: always true unless the class defines __bool__ / __len__
+    meths = {n.name: n for n in pk.body if isinstance(n, ast.FunctionDef)}
+    X.expect([ast.unparse(b) for b in pk.bases] in ([], ['object']), 'CRTPPacket: base classes changed (truthiness unknown)')
+    by_len = False
+    if '__bool__' in meths:
+        X.expect(skip_none, 'CRTPPacket defines __bool__ and run() tests the truthiness of the packet: not modelled')
+    elif '__len__' in meths:
+        rets = [ast.unparse(n.value) for n in ast.walk(meths['__len__']) if isinstance(n, ast.Return) and n.value is not None]
+        if rets in (['len(self._data)'], ['len(self.data)'], ['self.get_data_size()']):
+            by_len = True           # falsy exactly when the payload is empty
+        else:
+            X.expect(skip_none, 'CRTPPacket.__len__ returns %s and run() tests the truthiness of the packet: not modelled' % rets)
+    g.strings('packetTruthinessMethods', sorted(m for m in meths if m in ('__bool__', '__len__')))
+    g.raw('def packetTruthyByLen : Bool := ' + _lbool(by_len))
     fors = [n for n in wl.body if isinstance(n, ast.For)]
     X.expect(len(fors) == 1, 'run: expected exactly one top-level for loop over the port callbacks')
     fl = fors[0]
@@ -316,6 +347,27 @@ def act_token(a):
     return 'x'
 
 
+def pk_pair(x):
+    """a packet of a case: (header byte, payload length); a bare int means one payload byte"""
+    return (x, 1) if isinstance(x, int) else (int(x[0]), int(x[1]))
+
+
+PAYLOAD_LENS = [0, 0, 0, 1, 1, 2, 7, 29, 30, 30]
+
+
+def with_payloads(case, rng, all_len=None):
+    """give every packet of the case a payload length (header-only packets, 1 byte, ... the 30-byte maximum)"""
+    ops = []
+    for op in case['ops']:
+        if op[0] == 'pkts':
+            op = ('pkts', [x if not isinstance(x, int) else (x, all_len if all_len is not None else rng.choice(PAYLOAD_LENS))
+                           for x in op[1]])
+        ops.append(op)
+    c = dict(case)
+    c['ops'] = ops
+    return c
+
+
 def case_lines(case):
     lines = ['reset']
     for op in case['ops']:
@@ -324,7 +376,7 @@ def case_lines(case):
         elif op[0] == 'ext':
             lines.append('ext ' + act_token(op[1]))
         else:
-            lines.append('pkts ' + ','.join(str(h) for h in op[1]))
+            lines.append('pkts ' + ','.join('%d/%d' % pk_pair(x) for x in op[1]))
     return lines
 
 
@@ -474,7 +526,11 @@ class RealEnv:
         n0 = len(self.log)
         if self.dead or self.finished:
             return 'ok -'
-        pks = [(h, self.CRTPPacket(h, [h & 0x7F])) for h in hdrs]
+        pks = []
+        for h, n in map(pk_pair, hdrs):
+            pk = self.CRTPPacket(h, bytes((h + i) & 0xFF for i in range(n)))
+            assert len(pk.data) == n and pk.port == h >> 4, 'harness: packet construction'
+            pks.append((h, pk))
         if self.mode == 'sync':
             self.queue.extend(pks)
             try:
@@ -711,7 +767,18 @@ def gen_cases(ctx):
     cases = load_corpus() + gen_families(rng, thorough)
     for _ in range(50000 if thorough else 5000):
         cases.append(gen_random_case(rng, big=rng.random() < 0.2))
-    return cases
+    out = []
+    for c in cases:
+        if c['family'] == 'all-headers':
+            out.append(with_payloads(c, rng, all_len=0))       # header-only packets on all 256 headers
+        out.append(with_payloads(c, rng))
+    # every header byte as a header-only packet, a 1-byte and a 30-byte packet, against observers of everything
+    for n in (0, 1, 30):
+        ops = [('ext', ('A', 100)), ('ext', mk_reg_act('a', 'full', 0, 0, 0, 0, 1))]
+        ops += [('ext', mk_reg_act('a', 'port', p, 0xFF, 0, 0, 2 + p)) for p in range(16)]
+        ops.append(('pkts', [(h, n) for h in range(256)]))
+        out.append({'mode': 'thread' if n == 0 else 'sync', 'ops': ops, 'family': 'payload-%d-all-headers' % n})
+    return out
 
 
 def load_corpus():
@@ -735,7 +802,7 @@ def _untuple(op):
         return ('beh', op[1], op[2], [tuple(a) for a in op[3]])
     if op[0] == 'ext':
         return ('ext', tuple(op[1]))
-    return ('pkts', list(op[1]))
+    return ('pkts', [x if isinstance(x, int) else tuple(x) for x in op[1]])
 
 
 def correspond(ctx):
@@ -800,6 +867,10 @@ def correspond(ctx):
             if op[0] == 'beh':
                 for a in op[3]:
                     ctx.count('act-in-callback:' + a[0])
+            elif op[0] == 'pkts':
+                for x in op[1]:
+                    n = pk_pair(x)[1]
+                    ctx.count('payload:%s' % ('0' if n == 0 else '1' if n == 1 else '30' if n == 30 else 'other'))
         ctx.case({'family': c['family'], 'mode': c.get('mode', 'sync'), 'ops': cl[1:8]}, tuple(cl) if interesting else None)
         if bad:
             ctx.disagree('dispatch:' + c['family'], {'lines': cl, 'at': bad[0]}, bad[1][:400], bad[2][:400])
@@ -825,6 +896,7 @@ def spec_eval(case):
     regs = []            # spec-level registry: added and not since removed
     alls = []
     fed = []
+    fedlen = []
     toks = []
 
     def apply_op(t):
@@ -852,6 +924,11 @@ def spec_eval(case):
         h = d.h
         if d.r0 is None:
             d.r0 = list(regs)     # nobody was called: no port callback body ran, the registry is still the one at the start
+        if not d.allcalls and not d.calls and (d.a0 or any(spec_match(r, h) for r in d.r0)):
+            bad.append(('packet-dropped', 'the packet with header %d and %d payload bytes was taken from the link and passed to no callback '
+                        'at all (all-packet callbacks registered: %s, matching registrations: %s)'
+                        % (h, d.n, d.a0, [r for r in d.r0 if spec_match(r, h)]), h))
+            return
         if d.allcalls != d.a0:
             bad.append(('caller-copy', 'all-packet callbacks invoked %s, registered at the start of the call %s' % (d.allcalls, d.a0), h))
         for r in d.r0:
@@ -892,7 +969,8 @@ def spec_eval(case):
             for t in rep.split(' ')[1:]:
                 apply_op(t)
             continue
-        fed += op[1]
+        fed += [pk_pair(x)[0] for x in op[1]]
+        fedlen += [pk_pair(x)[1] for x in op[1]]
         for t in rep.split(' ')[1:]:
             toks.append(t)
             if t == '-':
@@ -901,6 +979,8 @@ def spec_eval(case):
                 close()
                 cur = Disp()
                 cur.h, cur.a0, cur.r0 = int(t[1:]), list(alls), None
+                npk = sum(1 for x in toks if x[0] == 'P')
+                cur.n = fedlen[npk - 1] if npk <= len(fedlen) else -1
                 cur.allcalls, cur.calls, cur.removed, cur.added, cur.raised = [], [], set(), [], False
             elif cur is None:
                 bad.append(('event-without-packet', t, None))
@@ -964,7 +1044,7 @@ def gen_search_case(rng):
         r = fresh()
         regs.append(r)
         ops.append(('ext', mk_reg_act('a', how_for(rng, r[1], r[2], r[3]), *r)))
-    alls = [100 + i for i in range(rng.choice([0, 0, 1, 2]))]
+    alls = [100 + i for i in range(rng.choice([0, 1, 1, 2]))]
     for c in alls:
         ops.append(('ext', ('A', c)))
     used = set()
@@ -1041,9 +1121,21 @@ def search(ctx):
         cases.append({'mode': 'sync', 'ops': ops, 'family': 'search-headers'})
     for _ in range(3000 if ctx.tier == 'quick' else 30000):
         cases.append(gen_search_case(rng))
+    cases = [with_payloads(c, rng) for c in cases]
+    cases += [with_payloads(c, rng, all_len=0) for c in cases if c['family'] in ('search-headers', 'D7-witness', 'search-raise')]
+    for n in (0, 1, 30):          # every header byte with this payload length, observed by all-packet and port callbacks
+        ops = [('ext', ('A', 100)), ('ext', ('A', 101)), ('ext', mk_reg_act('a', 'full', 0, 0, 0, 0, 1))]
+        ops += [('ext', mk_reg_act('a', 'port', p, 0xFF, 0, 0, 2 + p)) for p in range(16)]
+        ops.append(('pkts', [(h, n) for h in range(256)]))
+        cases.append({'mode': 'sync', 'ops': ops, 'family': 'search-payload-%d' % n})
     reported = set()
     for c in cases:
         ctx.count('search:' + c['family'])
+        for op in c['ops']:
+            if op[0] == 'pkts':
+                for x in op[1]:
+                    n = pk_pair(x)[1]
+                    ctx.count('search-payload:%s' % ('0' if n == 0 else '1' if n == 1 else '30' if n == 30 else 'other'))
         for key, what, h in spec_eval(c):
             if (key, c['family']) in reported and c['family'] != 'D7-witness':
                 ctx.count('search-violations-suppressed')
